@@ -36,6 +36,7 @@ class Profile:
         self.layouts = ('C',)
         self.specials = False
         self.casts = False
+        self.nonmonotonic_index = False # index channels that go up and down (C19: nothing may be sorted in place)
         self.must_kind = None           # a metadata kind of which every logical file holds at least one object
         self.fractional_index = False   # float64 index values that float32 cannot represent (differential oracles only)
         self.any_casts = False          # casts whose result is not defined for every value (C19 only: no content oracle)
@@ -380,6 +381,8 @@ def draw_index_array(draw, profile, rows):
         vals = [start]
         for _ in range(rows - 1):
             vals.append(vals[-1] + draw(st.integers(1, 9)))
+    if profile.nonmonotonic_index and rows >= 3 and draw(st.integers(0, 2)) == 0:
+        vals = list(draw(st.permutations(vals)))
     if profile.fractional_index and code == 'f8' and draw(st.booleans()):
         vals = [v * 0.1 + 1e-9 * (i % 7) for i, v in enumerate(vals)]
     arr = np.array(vals).astype(bo + code)
